@@ -33,6 +33,7 @@ type Pipe struct {
 	zeroRead int      // zero-length Read calls
 	given    int      // bytes handed to the reader so far
 
+	eofWith int   // -1: never; otherwise the Read that delivers byte number eofWith also returns io.EOF
 	failAt  int   // -1: never; otherwise reads fail once `given` reached failAt
 	failErr error // the error to return from then on (io.EOF, ErrReset, ErrTimeout)
 
@@ -49,7 +50,7 @@ type Pipe struct {
 }
 
 func NewPipe() *Pipe {
-	p := &Pipe{failAt: -1}
+	p := &Pipe{failAt: -1, eofWith: -1}
 	p.cond = sync.NewCond(&p.mu)
 	return p
 }
@@ -129,7 +130,20 @@ func (p *Pipe) Read(b []byte) (int, error) {
 	}
 	p.given += n
 	p.reads++
+	if p.eofWith >= 0 && p.given >= p.eofWith {
+		// io.Reader permits returning the data and io.EOF from one call
+		p.failAt, p.failErr = p.given, io.EOF
+		return n, io.EOF
+	}
 	return n, nil
+}
+
+// EOFWithLastBytes makes the Read that delivers the k-th byte return io.EOF together
+// with the data (and io.EOF from then on).
+func (p *Pipe) EOFWithLastBytes(k int) {
+	p.mu.Lock()
+	p.eofWith = k
+	p.mu.Unlock()
 }
 
 // WaitDrained blocks until the reader is parked in Read with nothing left to deliver
